@@ -19,6 +19,9 @@ package sema
 // from {Save, Load, Stat, Remove} x {non-lock type, lock}; one goroutine F doing
 // Freeze ... (Yield gate "frozen") ... Unfreeze.
 //
+// One program without freeze has five workers whose contexts a scenario action
+// may cancel while their operation waits for a token (the caller gives up).
+//
 // Monitor (every scheduler step = every quiescent state, plus at every start of
 // an inner operation):
 //   M1  running non-lock inner operations <= limit
@@ -101,6 +104,10 @@ type verifC37State struct {
 	endTokens       int
 	endFreezeLocked bool
 	states          []string
+	// cancellation programs: per-worker contexts, cancelled by a scenario action while the worker waits for a token
+	wctx      map[string]context.Context
+	wcancel   map[string]context.CancelFunc
+	cancelled map[string]bool
 }
 
 func (st *verifC37State) fail(kind, format string, a ...any) {
@@ -250,10 +257,10 @@ func (st *verifC37State) abstract() string {
 	return sb.String()
 }
 
-func verifC37Scenario(r *vh.Run, name, prog string, cycles int) (xplore.Scenario, func(x *xplore.Exec)) {
+func verifC37Scenario(r *vh.Run, name, prog string, cycles int, cancellable bool) (xplore.Scenario, func(x *xplore.Exec)) {
 	sc := xplore.Scenario{
 		Start: func(x *xplore.Exec) {
-			st := &verifC37State{x: x, ops: map[string]*verifC37Op{}}
+			st := &verifC37State{x: x, ops: map[string]*verifC37Op{}, wctx: map[string]context.Context{}, wcancel: map[string]context.CancelFunc{}, cancelled: map[string]bool{}}
 			x.Data = st
 			st.be = NewBackend(&verifC37Inner{st: st}) // channel + mutex are created inside the bubble
 			fb := st.be.(backend.FreezeBackend)
@@ -267,6 +274,8 @@ func verifC37Scenario(r *vh.Run, name, prog string, cycles int) (xplore.Scenario
 			for _, ops := range workers {
 				ops := ops
 				w := ops[0].worker
+				st.wctx[w], st.wcancel[w] = context.WithCancel(x.Ctx)
+				wctx := st.wctx[w]
 				x.Go(w, func() {
 					for _, o := range ops {
 						if x.Gate(xplore.Event{Key: fmt.Sprintf("%s:call:%d:%s/%s", w, o.idx, o.kind, o.typ), Proc: w, Kind: "call"}) < 0 {
@@ -275,7 +284,7 @@ func verifC37Scenario(r *vh.Run, name, prog string, cycles int) (xplore.Scenario
 						st.mu.Lock()
 						o.entered = true
 						st.mu.Unlock()
-						err := verifC37Call(x.Ctx, st.be, o.kind, backend.Handle{Type: o.typ, Name: o.name()})
+						err := verifC37Call(wctx, st.be, o.kind, backend.Handle{Type: o.typ, Name: o.name()})
 						st.mu.Lock()
 						o.err, o.returned = err, true
 						st.mu.Unlock()
@@ -296,6 +305,32 @@ func verifC37Scenario(r *vh.Run, name, prog string, cycles int) (xplore.Scenario
 					fb.Unfreeze()
 				}
 			})
+		},
+		Actions: func(x *xplore.Exec) []xplore.Action {
+			if !cancellable {
+				return nil
+			}
+			st := x.Data.(*verifC37State)
+			st.mu.Lock()
+			defer st.mu.Unlock()
+			parked := map[string]bool{}
+			for _, ev := range x.Pending() {
+				parked[ev.Proc] = true
+			}
+			var acts []xplore.Action
+			for _, o := range st.order {
+				w := o.worker
+				// the caller gives up (errgroup abort, timeout, Ctrl-C) while its operation waits for a token
+				if o.entered && !o.started && !o.returned && !o.isLock() && !parked[w] && !st.cancelled[w] {
+					acts = append(acts, xplore.Action{Name: "cancel:" + w, Proc: w, Do: func(x *xplore.Exec) {
+						st.mu.Lock()
+						st.cancelled[w] = true
+						st.mu.Unlock()
+						st.wcancel[w]()
+					}})
+				}
+			}
+			return acts
 		},
 		OnStep: func(x *xplore.Exec) {
 			st := x.Data.(*verifC37State)
@@ -388,7 +423,7 @@ func verifC37Scenario(r *vh.Run, name, prog string, cycles int) (xplore.Scenario
 			for _, o := range st.order {
 				if !o.returned {
 					st.fail("op-lost", "operation %s never returned although the execution ended", o)
-				} else if o.err != nil {
+				} else if o.err != nil && !st.cancelled[o.worker] {
 					st.fail("op-error", "operation %s returned error %v", o, o.err)
 				}
 			}
@@ -441,19 +476,22 @@ type verifC37Prog struct {
 	name, prog string
 	cycles     int
 	thorough   bool
+	cancel     bool // the context of a worker may be cancelled while its operation waits for a token
 }
 
 var verifC37Progs = []verifC37Prog{
 	// every worker: one non-lock operation then a lock operation; 3 non-lock ops compete for 2 tokens
-	{"A", "Save/p,Load/l|Load/i,Save/l|Stat/s", 1, false},
-	{"B", "Remove/k,Stat/l|Stat/c,Remove/l|Save/p", 1, false},
+	{"A", "Save/p,Load/l|Load/i,Save/l|Stat/s", 1, false, false},
+	{"B", "Remove/k,Stat/l|Stat/c,Remove/l|Save/p", 1, false, false},
 	// lock operation first; two non-lock operations per worker (token released and re-acquired)
-	{"C", "Save/l,Remove/p|Load/i,Remove/s|Stat/k,Load/c", 1, false},
+	{"C", "Save/l,Remove/p|Load/i,Remove/s|Stat/k,Load/c", 1, false, false},
 	// one non-lock op per worker and a pure lock worker
-	{"D", "Load/p|Remove/i|Stat/l,Save/l", 1, false},
+	{"D", "Load/p|Remove/i|Stat/l,Save/l", 1, false, false},
+	// five workers with one non-lock operation each, no freeze; a waiting caller may give up
+	{"H-cancel", "Save/p|Load/i|Stat/s|Remove/k|Save/c", 0, false, true},
 	// two freeze cycles
-	{"E", "Save/s,Remove/l|Stat/p|Load/l,Remove/c", 2, true},
-	{"G", "Stat/l,Save/k|Load/s,Stat/i|Remove/p,Load/l", 2, true},
+	{"E", "Save/s,Remove/l|Stat/p|Load/l,Remove/c", 2, true, false},
+	{"G", "Stat/l,Save/k|Load/s,Stat/i|Remove/p,Load/l", 2, true, false},
 }
 
 func TestVerif_C37(t *testing.T) {
@@ -468,7 +506,7 @@ func TestVerif_C37(t *testing.T) {
 		if p.thorough && !r.Thorough() {
 			continue
 		}
-		sc, check := verifC37Scenario(r, p.name, p.prog, p.cycles)
+		sc, check := verifC37Scenario(r, p.name, p.prog, p.cycles, p.cancel)
 		st := vx.Explore(r, t, p.name, sc, xplore.Options{Policy: xplore.Preempt, Bound: bound, LockPoints: true, MaxSteps: 300}, check)
 		r.Note("scenario %s (%s, %d freeze cycles): bound=%d execs(this shard)=%d maxdev=%d", p.name, p.prog, p.cycles, bound, st.Execs, st.MaxDev)
 		r.Sample(map[string]any{"scenario": p.name, "program": p.prog, "freeze_cycles": p.cycles, "limit": verifC37Limit, "deviation_bound": bound})
